@@ -130,7 +130,13 @@ def scen_spm(env, cfg):
     D_ = env.lib.devices
     n, pol, lossy = cfg['n'], cfg['pol'], cfg['lossy']
     _setup(env)
-    x, S = _field(env, n, pol)
+    if cfg.get('realfield'):
+        # a real-valued envelope stored as float64 (the container keeps the dtype it is given): the result is complex all the same
+        T = env.lib.typing
+        S = [env.reals(f'E.s{p}', n, -2, 2) for p in range(pol)]
+        x = T.optical_signal(list(S[0])) if pol == 1 else T.optical_signal([list(r) for r in S])
+    else:
+        x, S = _field(env, n, pol)
     env.assume(env.re(S[0][0]) >= 0.5)
     if pol == 1:
         env.assume(env.re(S[0][1]) >= 0.5)
@@ -321,6 +327,7 @@ def configs(tier):
     for pol in (1, 2):
         for lossy in (False, True):
             out.append((f'spm-n2-pol{pol}-{"lossy" if lossy else "lossless"}', scen_spm, dict(n=2, pol=pol, lossy=lossy), {}))
+        out.append((f'spm-n2-pol{pol}-lossless-real-envelope', scen_spm, dict(n=2, pol=pol, lossy=False, realfield=True), {}))
     for pol in (1, 2):
         out.append((f'finite-weak-lossy-pol{pol}', scen_finite_weak, dict(pol=pol), {'validate': 2, 'limits': {'feas_timeout_ms': 1000}}))
     for n in ((2,) if q else (2, 3)):
